@@ -4,7 +4,7 @@ BASE_NOTE = ("Trusted: Coq 8.16.1 kernel (vm_compute for witnesses/examples only
              "the correspondence harness (generators, exact-rational canonicalisation, observation mapping); CPython 3.12/numpy "
              "float64 semantics on the exact (dyadic) input families. The theorems are about the Gallina model; the tie to /repo/src "
              "is the correspondence run on every check (sampled, not proved). ")
-SOURCE_COMMITS = ["bc49a1c", "e3a7f92", "9ed7728", "007ee91", "c29e4c1", "17a47e5", "867807e", "949de5f", "5cc174a", "d64e197", "df761a4", "5d29398", "7a3c11a", "0a21c22", "aeeccf6", "59481a8", "b5aca95", "679700e", "ca2559c"]   # "fix:" commits only (no guarded hooks exist)
+SOURCE_COMMITS = ["bc49a1c", "e3a7f92", "9ed7728", "007ee91", "c29e4c1", "17a47e5", "867807e", "949de5f", "5cc174a", "d64e197", "df761a4", "5d29398", "7a3c11a", "0a21c22", "aeeccf6", "59481a8", "b5aca95", "679700e", "ca2559c", "e1a34e7", "3b48309"]   # "fix:" commits only (no guarded hooks exist)
 NOTES = ("Every check: (1) rebuilds the Coq development incrementally and re-checks coq/Props/<id>.v (grep gate for Admitted/Axiom/...); "
          "(2) runs physt from /repo/src and the extracted model on the same seeded cases; (3) applies the extracted check_<id> to the "
          "implementation's observation. VIOLATION lines carry a replay file; 'no-failing-input-found' is appended when only the "
@@ -60,6 +60,16 @@ CLAIMED = {
          "for it, total = weight entered, nothing missed, and the result equals one-shot construction over the final bins."),
    note=BASE_NOTE + "binary64 arithmetic of the grid is NOT modelled beyond the witness; for the float family the model is not "
         "the oracle, only the invariants are. N-d arrays are kept small (the model's lookups are quadratic)."),
+ "C18": dict(
+   technique="Coq proof of failure atomicity by case analysis of every in-place operation, lifted to histories + extracted-model correspondence with a per-interval snapshot predicate",
+   text=("Theorems: for each in-place operation of the model (validation and mutation in source order), a call that raises leaves "
+         "contents, squared errors, missed counters and bins unchanged (dtype possibly promoted); lifted to every position of every "
+         "history; accepted arithmetic never stores a negative content; dtype/arrays consistent after every call. Histories with "
+         "~35% invalid calls (incl. 20 kinds of calls outside the model) run on physt; before/after snapshots keyed by bin "
+         "interval, missed counters and shape invariants are checked by the extracted predicate, and raised / not-raised plus "
+         "resulting contents are compared with the model for modelled calls."),
+   note=BASE_NOTE + "Calls outside DtypeCases.dstep are checked only through the observation predicate (the property itself), "
+        "not through a model; HistogramCollection constructor/add refusals are exercised in C12's cases."),
  "C05": dict(
    technique="Coq proofs (pointwise sum, commutativity/associativity, promotion lattice, conservation on the union grid) + extracted-model correspondence",
    text=("Theorems: same-bins addition is the pointwise sum of contents/errors2/missed with dtype = promote_types (a semilattice "
